@@ -444,7 +444,7 @@ func unaffectedSig(q reqSpec, sc *scenario) string {
 // foreign: the successful execution of ANOTHER key that the answer of rq identifies (X-Exec).
 func (r *run) foreign(rq *reqRec) *execRec {
 	id := rq.Resp.Get("X-Exec")
-	if id == "" {
+	if id == "" || r.sc.ConstResp {
 		return nil
 	}
 	for _, ex := range r.execs {
@@ -492,6 +492,7 @@ const (
 	oExecOK = iota
 	oExecFail
 	oReplay
+	oReplayAny // a replay that does not say of which execution: legal once something is recorded
 )
 
 type regOut struct {
@@ -512,6 +513,8 @@ var regModel = porcupine.Model{
 			return true, o.ID
 		case oReplay:
 			return st == o.ID, st
+		case oReplayAny:
+			return st != -1, st
 		default: // a failed execution records nothing; the statement says nothing about when it may happen
 			return true, st
 		}
@@ -519,7 +522,7 @@ var regModel = porcupine.Model{
 	Equal: func(a, b any) bool { return a.(int) == b.(int) },
 	DescribeOperation: func(_ any, output any) string {
 		o := output.(regOut)
-		return []string{"execute-ok", "execute-fail", "replay"}[o.Kind] + "(" + strconv.Itoa(o.ID) + ")"
+		return []string{"execute-ok", "execute-fail", "replay", "replay-of-whatever-is-recorded"}[o.Kind] + "(" + strconv.Itoa(o.ID) + ")"
 	},
 }
 
@@ -541,10 +544,15 @@ func (r *run) linearizable(key string, reqs []*reqRec, add func(sig, what string
 			}
 		} else {
 			id, err := strconv.Atoi(rq.Resp.Get("X-Exec"))
-			if err != nil {
-				id = -2 // identifies no execution: illegal in every state
+			switch {
+			case r.sc.ConstResp || (err != nil && r.sc.Keep != nil && !r.sc.keepNamed("x-exec")):
+				// the answer cannot name its execution (identical answers, or X-Exec not kept)
+				out = regOut{oReplayAny, 0}
+			case err != nil:
+				out = regOut{oReplay, -2} // identifies no execution: illegal in every state
+			default:
+				out = regOut{oReplay, id}
 			}
-			out = regOut{oReplay, id}
 		}
 		ops = append(ops, porcupine.Operation{ClientId: rq.Idx, Input: 0, Output: out, Call: rq.Call, Return: rq.Ret})
 	}
